@@ -83,10 +83,16 @@ Definition exists_step (r : cli) : list effect :=
     else if negb (force r) then [Bail] else []
   else [].
 
-(* only present once the source guards the sidecar write (Generated/C32_facts.v: sidecar_write_guarded; false on
-   the pinned tree, see F-CLI-SIDECAR):  if args.sidecar && sidecar.exists() && !args.force { bail } *)
+(* The two existence tests added by the repairs of F-CLI-SIDECAR (5fdfaf69f) and F-CLI-FRAG-INIT (414c938c4) are
+   parameters of the decision: [sg] = the sidecar write is guarded, [fg] = the init-segment write is guarded.
+   [decide] below instantiates them with the facts regenerated from the source (Generated/C32_facts.v); the
+   behaviour before the repairs is [decide_g false false]. *)
+Section Guards.
+Variables sg fg : bool.
+
+(* if args.sidecar { if sidecar.exists() && !args.force { bail } } *)
 Definition sidecar_guard (r : cli) : list effect :=
-  if sidecar_write_guarded && sidecar r && negb (force r) && match sc r with SAbsent => false | _ => true end
+  if sg && sidecar r && negb (force r) && match sc r with SAbsent => false | _ => true end
   then [Bail] else [].
 
 (* if path != output { builder.sign_file(path, output) } else { sign to a temp file; persist over output }
@@ -117,8 +123,8 @@ Definition fragment_sign (r : cli) : list effect :=
   andthen (if out_exists r then [] else [Mkdir POut])
   (andthen (if exists_before r PFragDir then [] else [Mkdir PFragDir])
   (andthen (if exists_before r PFragSeg then [Fail] else [Write PFragSeg])
-           (* frag_init_guarded: false on the pinned tree, see F-CLI-FRAG-INIT *)
-           (if frag_init_guarded && exists_before r PFragInit then [Fail] else [Write PFragInit; Report]))).
+           (* if output_file.exists() { return Err(..) }  before save_jumbf_to_file *)
+           (if fg && exists_before r PFragInit then [Fail] else [Write PFragInit; Report]))).
 
 Definition manifest_fragment_mode (r : cli) : list effect :=
   if out_exists r && negb (out_is_dir r) then [Bail]
@@ -129,7 +135,7 @@ Definition folder_mode (r : cli) : list effect :=
   else andthen (if out_exists r then (if force r then [RemoveTree POut] else [Bail]) else [])
                [Mkdir POut; Write POutChild; Report].
 
-Definition decide (r : cli) : list effect :=
+Definition decide_g (r : cli) : list effect :=
   if early r then [Report]
   else if has_manifest r then
     match out r with
@@ -144,30 +150,34 @@ Definition decide (r : cli) : list effect :=
        | ONone => [Report]
        | _ => folder_mode r
        end.
+End Guards.
+
+Definition decide : cli -> list effect := decide_g sidecar_write_guarded frag_init_guarded.
 
 (* effects that modify, replace or delete what they name *)
 Definition destructive (e : effect) : option cpath :=
   match e with Remove p | Write p | RemoveTree p => Some p | _ => None end.
 
 (* the property, per record: every destructive effect on something that existed needs --force *)
-Definition no_clobber_b (r : cli) : bool :=
+Definition no_clobber_of (d : cli -> list effect) (r : cli) : bool :=
   forallb (fun e => match destructive e with
                     | Some p => implb (exists_before r p) (force r)
                     | None => true
-                    end) (decide r).
+                    end) (d r).
+Definition no_clobber_b : cli -> bool := no_clobber_of decide.
 
-(* the two known classes *)
-(* F-CLI-SIDECAR: File::create(sidecar) has no existence test *)
+(* the two classes of the behaviour before the repairs (both fixed; kept to state what the old code did) *)
+(* F-CLI-SIDECAR: File::create(sidecar) had no existence test *)
 Definition known_sidecar (r : cli) : bool :=
-  negb sidecar_write_guarded && negb (early r) && has_manifest r && match fragment r with FNone => true | _ => false end
+  negb (early r) && has_manifest r && match fragment r with FNone => true | _ => false end
   && sidecar r && match sc r with SFile => true | _ => false end && negb (force r)
   && ext_match r && match out r with OAbsent | ONoParent => true | _ => false end
   && match same r with Same => false | _ => true end.
-(* F-CLI-FRAG-INIT: fragments are written with create_new, the init segment is overwritten *)
+(* F-CLI-FRAG-INIT: fragments were written with create_new, the init segment was overwritten *)
 Definition known_frag_init (r : cli) : bool :=
-  negb frag_init_guarded && negb (early r) && has_manifest r && match fragment r with FGlob => true | _ => false end
+  negb (early r) && has_manifest r && match fragment r with FGlob => true | _ => false end
   && out_is_dir r && finit r && negb (fseg r) && negb (force r).
-Definition known (r : cli) := known_sidecar r || known_frag_init r.
+Definition old_known (r : cli) := known_sidecar r || known_frag_init r.
 
 (* the whole domain, spelled out *)
 Definition bools := [false; true].
